@@ -115,6 +115,90 @@ fn alphabet() -> Vec<Tok> {
     a
 }
 
+// ---------------------------------------------------------------------------------------- every control function on prepared screens
+const AF_INTERS: [&str; 8] = ["", " ", "$", "*", "?", "=", "!", "<"];
+const AF_STATES: u64 = 10;
+const AF_SIZES: [(u8, u8); 2] = [(80, 25), (5, 3)];
+
+fn af_state(k: u64, w: i32, h: i32) -> Vec<u8> {
+    let row = |n: i32| vec![b'y'; n.max(0) as usize];
+    let mut v = Vec::new();
+    match k {
+        0 => {}
+        1 => v.extend(row(w)),
+        2 => {
+            // cursor moved back into a row that is filled up to the last column
+            v.extend(row(w));
+            v.extend_from_slice(b"\x1b[A");
+        }
+        3 => v.extend_from_slice(format!("\x1b[{h};{w}H").as_bytes()),
+        4 => v.extend(vec![b'\n'; (h + 7) as usize]),
+        5 => v.extend_from_slice(format!("\x1b[2;{}r\x1b[2;2H", (h - 1).max(2)).as_bytes()),
+        6 => v.extend_from_slice(format!("\x1b[2;{}r\x1b[?6h", (h - 1).max(2)).as_bytes()),
+        7 => {
+            v.extend_from_slice(b"\x1b[?7l");
+            v.extend(row(w + 5));
+        }
+        8 => v.extend_from_slice(format!("\x1b[?69h\x1b[2;{}s\x1b[1;{}H", (w - 1).max(2), w).as_bytes()),
+        _ => {
+            for _ in 0..3 {
+                v.extend(row(w));
+            }
+            v.extend_from_slice(format!("\x1b[2;{w}H\x1b[4h").as_bytes());
+        }
+    }
+    v
+}
+
+fn af_lists(w: u32, h: u32) -> Vec<Vec<u32>> {
+    let mut out: Vec<Vec<u32>> = vec![vec![]];
+    for p in 0..=8u32 {
+        out.push(vec![p]);
+    }
+    for p in [w, w + 1, h, h + 1, 9999] {
+        out.push(vec![p]);
+    }
+    for (a, b) in [(1, 1), (h + 1, w + 1), (0, 9999), (9999, 0), (2, 9999), (4, 4)] {
+        out.push(vec![a, b]);
+    }
+    out.push(vec![1, 1, 1]);
+    out.push(vec![9999, 9999, 9999]);
+    out.push(vec![h + 1, 1, 1]);
+    out
+}
+
+const AF_LISTS: u64 = 24;
+
+fn af_case(idx: u64) -> Case {
+    let (w, h) = AF_SIZES[(idx % 2) as usize];
+    let r = idx / 2;
+    let state = r % AF_STATES;
+    let r = r / AF_STATES;
+    let lists = af_lists(w as u32, h as u32);
+    debug_assert_eq!(lists.len() as u64, AF_LISTS);
+    let ps = &lists[(r % AF_LISTS) as usize];
+    let r = r / AF_LISTS;
+    let inter = AF_INTERS[(r % 8) as usize];
+    let fin = 0x40 + (r / 8) as u8;
+    let mut v = af_state(state, w as i32, h as i32);
+    v.extend_from_slice(b"\x1b[");
+    let (pre, mid) = match inter {
+        "?" | "=" | "!" | "<" => (inter, ""),
+        o => ("", o),
+    };
+    v.extend_from_slice(pre.as_bytes());
+    for (i, p) in ps.iter().enumerate() {
+        if i > 0 {
+            v.push(b';');
+        }
+        v.extend_from_slice(p.to_string().as_bytes());
+    }
+    v.extend_from_slice(mid.as_bytes());
+    v.push(fin);
+    v.extend_from_slice(b"Z\x1b[C!");
+    Case { emu: 0, w, h, shape: 1, data: Bytes(v) }
+}
+
 const SIZES: [(u8, u8); 5] = [(80, 25), (1, 1), (2, 2), (132, 60), (40, 24)];
 
 /// label of what ended at byte index `i` (a root-cause class for the failure key)
@@ -315,6 +399,8 @@ fn main() {
          insert/delete/erase/save-restore/reset/origin/wrap functions with parameters from {none,0,1,mid,size,size+1,9999}) on 80x25, 1x1, 2x2, 132x60, 40x24; \
          random: token streams <= 4 KiB with newline filler (scrollback fills) for all 14 emulation configurations, Viewdata on 40x24, Mode 7 on 40x24 and 40x25. \
          After every byte: 0 <= x < terminal width, first_visible <= y < first_visible + terminal height; Viewdata/Mode7: buffer, layer and terminal size unchanged. \
+         all_finals (exhaustive): every CSI final 0x40..0x7E x 8 intermediates x 24 parameter lists (none, 0..=8, width, width+1, height, height+1, 9999, six pairs, three triples) on ten prepared screens \
+         (fresh; full row; cursor moved back into a full row; cursor at the bottom right; scrollback; margins; origin mode; no-wrap run past the margin; left/right margins; insert mode in a full row) for 80x25 and 5x3, followed by a printable, CUF and a printable. \
          Non-trivial: the cursor left the home position AND a scroll/wrap happened (buffer height grew, cursor wrapped upward, or cursor reached the last visible row); distinct by case hash.",
     );
     eng.assume("a sequence ends at its first violation; a panic or abort ends the history (C01's subject; random streams run in worker processes so that an abort cannot take the check down); streams containing the resize request CSI 8;h;w t are outside the statement (discarded)");
@@ -337,6 +423,8 @@ fn main() {
         },
         check,
     );
+    // every control function (63 finals x 8 intermediates) with selector-like and boundary parameters on ten prepared screens
+    eng.enumerated(PartCfg::new("all_finals", 0, 0).exhaustive(true), 2 * AF_STATES * AF_LISTS * 8 * 63, af_case, check);
     let sizes3: Vec<(u8, u8)> = if thorough { SIZES.to_vec() } else { vec![(80, 25), (2, 2)] };
     let a3 = alpha.clone();
     let cube = n * n * n;
